@@ -19,6 +19,9 @@ LEVEL = 'proof'
 PROPS_MODULES = ['RTV.Props.C14']
 GEN = ['timexregex', 'timexenglish']
 REQUIRED_THEOREMS = ['genCfg_ok', 'parse_format_fields', 'format_idempotent', 'canonical_fixed', 'tree_roundtrip',
+                     # the guards are exact (audit item 17); Canonical is a grammar and equals the image of format
+                     'canonical_iff_image', 'inRange_roundTrips', 'dt_guard_necessary', 'noncombinable_witnesses',
+                     'out_of_range_format_empty', 'inRange_d_exact', 'inRange_exact',
                      'from_date_canonical', 'from_date_time_canonical', 'from_time_canonical', 'format_parse',
                      'duration_int_format', 'duration_examples', 'repaired_roundtrips', 'tiny_amount_not_stable',
                      'parse_dur', 'format_dur', 'duration_int_roundtrip', 
@@ -36,7 +39,11 @@ RULE = ('every TimexRegex pattern x boundary years (0001/0999/1000/1999/2000/999
 ASSUMPTIONS = ['Unicode Nd table and re/Decimal behaviour of the running CPython (digit table regenerated into Gen)',
                'Decimal results with more than 28 significant digits are outside the model (never generated)',
                'property oracles apply to in-range fields: year 0001-9999, month 01-12, day 01-31, weekday 1-7, '
-               'week 01-53, week-of-month 1-5, hour 00-24, minute/second 00-59, amount > 0 unless stated']
+               'week 01-53, week-of-month 1-5, hour 00-24, minute/second 00-59, amount > 0 unless stated; the accepted '
+               'out-of-range strings that format to the empty string (0000, XXXX-00, XXXX-WXX-0: Python truthiness of 0) '
+               'are counted as observations (evidence key accepted_out_of_range_format_empty), not reported',
+               'a year / month / season / week / week-of-month form followed by a time (2020-05T05, SUTMO) IS in the '
+               'grammar the datatype accepts (its own date+time composition assigns both halves): round-trip oracle applies']
 TRUSTED_EXTRA = ['harness/translate/timexregex.py (re._parser parse of the pattern texts -> Item lists)']
 
 YEARS = ['0001', '0999', '1000', '1999', '2000', '2020', '9999']
@@ -44,6 +51,11 @@ SEASONS = ['SP', 'SU', 'FA', 'WI']
 PODS = ['DT', 'NI', 'MO', 'AF', 'EV']
 INT_AMOUNTS = ['1', '2', '7', '10', '36', '99', '100', '1000', '0010', '007', '123456789']
 FRAC_AMOUNTS = ['0.5', '.5', '1.5', '1.50', '2.25', '10.0', '0.25', '3.125', '00.5', '0.10']
+# date forms that do NOT combine with a time (Lean: ¬ Combinable), in-range instances
+NONCOMBINABLE = [('year', ['2020']), ('yearmonth', ['2020-05', '2020-12']), ('season', ['SU', 'WI']),
+                 ('yearseason', ['2020-SU']), ('week', ['2020-W05', '2020-W53']), ('weekend', ['2020-W05-WE']),
+                 ('month', ['XXXX-05', 'XXXX-12']), ('monthweek', ['XXXX-05-W02']),
+                 ('monthweekday', ['XXXX-05-WXX-2-3', 'XXXX-12-WXX-5-7'])]
 
 
 def dd(n, w=2):
@@ -136,8 +148,18 @@ def grammar(ctx):
             out.append(('datetime', d + t, ok and ok2, None))
         for p in PODS:
             out.append(('datepartofday', d + 'T' + p, ok, None))
-    # other date forms + a time: accepted by the parser, outside the property's families (correspondence only)
-    for d in ('2020', '2020-05', 'SU', '2020-SU', '2020-W05', '2020-W05-WE', 'XXXX-05', 'XXXX-05-W02', 'XXXX-05-WXX-2-3'):
+    # the other nine date forms + a time of day / part of day: ACCEPTED by the datatype (extract_date_time applies the 'date'
+    # patterns to the part before 'T' and the 'time' patterns to the rest and assigns the fields of both), so they are
+    # strings of "the grammar the datatype accepts" and subject to the round-trip oracle.  Lean: dt_guard_necessary /
+    # noncombinable_witnesses (timex_value() drops the time).  Signature by date form.
+    y2 = dd(r.randint(1, 9999), 4)
+    for form, ds in NONCOMBINABLE:
+        for d in ds:
+            for yy in ('2020', y2):
+                for t in ('T05', 'T05:30', 'T05:30:15', 'TMO', 'T00'):
+                    out.append(('noncombinable+time', d.replace('2020', yy) + t, True, 'noncomb:' + form))
+    # out-of-range date fields + a time (year 0000, month 00, weekday 0): correspondence only
+    for d in ('0000', 'XXXX-00', 'XXXX-WXX-0', '0000-05', 'XXXX-00-W02'):
         for t in ('T05', 'T05:30', 'T05:30:15', 'TMO'):
             out.append(('other+time', d + t, False, None))
     # ranges (start,end,duration): the middle part is ignored by the parser
@@ -476,6 +498,8 @@ def check_convert(ctx):
 
 def classify(fam, s, tag, v):
     """stable signature of a failed round trip"""
+    if tag and tag.startswith('noncomb:'):
+        return 'noncombinable-date+time:' + tag.split(':', 1)[1]
     if fam == 'monthweek' or tag == 'monthweek' or re.match(r'^XXXX-\d\d-W\d\d$', s):
         return 'week-of-month-reformat'
     m = re.match(r'^PT?(\d*\.?\d+)[YMWDHS]$', s)
@@ -541,6 +565,12 @@ def _correspond(ctx):
                     bad = 'fields change: Timex(%r) has %s, its timex_value %r re-parses to %s' % (s, f1, v, f2)
                 elif v2 != v:
                     bad = 'format not idempotent: %r -> %r -> %r' % (s, v, v2)
+        if not ok and not isinstance(rt, str) and rt[0] == '' and rt[1] != rt[2] and fam != 'noise':
+            # accepted (some field set), formats to '' : out-of-range observation (Lean: out_of_range_format_empty)
+            ctx.count('observation:accepted-out-of-range-formats-empty')
+            obs = ctx.extra.setdefault('accepted_out_of_range_format_empty', [])
+            if len(obs) < 40:
+                obs.append(s)
         if 'unmodelled' in b:
             unmod += 1
         elif a != b:
